@@ -22,7 +22,7 @@ from clastic.static import StaticApplication
 
 from sim.core.base import Check, RunResult, Streams, InvalidPlan, canon
 from sim.core.gateway import make_environ, call_app
-from sim.core.seams import Seams, EPOCH
+from sim.core.seams import Seams, EPOCH, SimClock, make_datetime_proxy
 from sim.core.fsseam import FsSeam
 
 ERRNOS = [errno.ENOENT, errno.EACCES, errno.EIO, errno.EISDIR]
@@ -209,6 +209,9 @@ class C14(Check):
                 if rng.random() < (0.75 if r == rnames[0] else 0.5):
                     files.append({'rel': rel, 'kind': rng.choice(['text', 'text', 'bin', 'empty', 'big']),
                                   'mtime_off': -rng.choice([0, 1, 37, 3600, 86400 * 3]) - rng.choice([0, 0, 0.25, 0.5, 0.75])})
+                    if rng.random() < 0.1:
+                        # a file from the future relative to the server clock (clock skew, an unpacked archive)
+                        files[-1]['mtime_off'] = rng.choice([1.0, 3600.0, 86400.0 * 365, 4e8])
                     if rng.random() < 0.12:
                         # boundary values: exactly the epoch, one second either side, a fraction that rounds to it
                         files[-1]['mtime_off'] = rng.choice([0.0, 0.0, 1.0, -1.0, 0.4, -0.4, 86400.0]) - EPOCH
@@ -351,6 +354,10 @@ class C14(Check):
         try:
             with Seams() as sm:
                 seam.install(sm, cstatic)
+                # the server clock (static.py does not read it today; if it ever does, it reads the simulated one)
+                clock = SimClock()
+                _, simdt = make_datetime_proxy(clock)
+                sm.patch(cstatic, 'datetime', simdt)
                 seam.begin()
                 app = w.build_app()
                 for step, op in enumerate(plan['ops']):
